@@ -262,6 +262,7 @@ def run(F, rep, tier):
     # ---------------- R09.9
     mirror_rule(F, rep)
     unary_dispatch_rule(F, rep)
+    list_polarity_rule(F, rep)
 
 
 def between_form(F, rep, rid, k):
@@ -874,3 +875,72 @@ def unary_dispatch_rule(F, rep):
                 else:
                     rep.ok(rid, key, "applies %s (`%s`)" % (called[0].split("::")[-1], UNARY_VARIANTS[v]))
     rep.floor(rid, "arms for unary-test items", arms, 8)
+
+
+# ======================================================================================================
+# R09.12: a list of tests is a disjunction, a negated list the negation of that disjunction
+LIST_KINDS = {"ExpressionList": True, "NegatedCommaList": False}
+
+
+def list_polarity_rule(F, rep):
+    """`x in (t1, t2, ...)` holds iff some test holds, `x in not(t1, t2, ...)` iff none does (decision-table input entries `a, b` and `not(a, b)`).  The functions the `in`
+    evaluator applies to the items of Value::ExpressionList / Value::NegatedCommaList are folded on item lists of length 0..3 with every assignment of true / false to the
+    per-item tests (the item tests themselves are R09.5 / R09.11; here they answer the assigned truth value): the result must be the boolean any(tests) respectively
+    not any(tests).  Only a fold that ends in a definite, different boolean is a violation."""
+    import itertools
+    from hireval import Evaluator, TooManyPaths, sym
+    rid = rep.rule("R09.12", "the function applied to the items of a test list answers any(item tests), the one applied to a negated list not any(item tests): folded on lists of 0..3 items under every truth assignment")
+    fns = {n: h for n, h in F.hir.items() if n.startswith("dmntk_feel_evaluator::") and h.get("kind") in ("fn", "method")}
+    found = {}
+    for n, h in sorted(fns.items()):
+        for m, _ in find_hir(h["body"], lambda x: x.get("k") == "Match" and x.get("src") == "Normal"):
+            for arm in m["arms"]:
+                vs = {c.split("::")[-1] for c in pat_paths(arm["p"]) if c.startswith("dmntk_feel::values::Value::")}
+                if len(vs) != 1 or next(iter(vs)) not in LIST_KINDS:
+                    continue
+                for c, _ in find_hir(arm["b"], lambda x: x.get("k") == "Call" and x.get("callee") in fns and len(x.get("args", [])) == 2 and "{closure" not in x["callee"]):
+                    hh = fns[c["callee"]]
+                    if find_hir(hh["body"], lambda x: x.get("k") == "Match" and x.get("src") == "ForLoopDesugar") or \
+                            find_hir(hh["body"], lambda x: x.get("k") == "MethodCall" and x.get("method") in ("any", "all", "find", "position", "fold", "try_fold")):
+                        found.setdefault((c["callee"], LIST_KINDS[next(iter(vs))]), "%s:%s" % (hh["file"], hh["line"]))
+    n = 0
+    for (fn, positive), where in sorted(found.items()):
+        short = fn.split("::")[-1]
+        key = "list:%s" % short
+        n += 1
+        bad, unknown, cells = [], [], 0
+        for item_kind in ("UnaryLess", "Number"):
+            for k in range(0, 4):
+                for asg in itertools.product((False, True), repeat=k):
+                    cnt = [0]
+
+                    def hook(c, a, st, asg=asg, cnt=cnt):
+                        if c in fns and c != fn and len(a) == 2 and "{closure" not in c:
+                            i = cnt[0]
+                            cnt[0] += 1
+                            return ("v", "Boolean", [("lit", asg[i])]) if i < len(asg) else None
+                        return None
+                    items = ("array", [("v", item_kind, [sym("c%d" % i)]) for i in range(k)])
+                    ev = Evaluator(F, call_hook=hook, ints=True, inline={x for x in F.hir if x.startswith("dmntk_feel::values::Value::is_")})
+                    ev.vecs = True
+                    try:
+                        outs = ev.run_fn(fn, [sym("left"), items])
+                    except (TooManyPaths, ValueError, KeyError, TypeError, IndexError, RecursionError) as x:
+                        unknown.append("%s %s: %s" % (item_kind, list(asg), x))
+                        continue
+                    want = any(asg) if positive else not any(asg)
+                    for conds, v in outs:
+                        cells += 1
+                        b = v[2][0] if v[0] == "v" and v[1] == "Boolean" and len(v[2]) == 1 else None
+                        if cnt[0] > len(asg) or b is None or b[0] not in ("bool", "lit") or not isinstance(b[1], bool) or conds:
+                            unknown.append("%s items, tests %s: %s" % (item_kind, list(asg), str(v)[:60]))
+                        elif b[1] != want:
+                            bad.append("tests %s -> %s" % (list(asg), str(b[1]).lower()))
+        what = "any(tests)" if positive else "not any(tests)"
+        if bad:
+            rep.violation(rid, key, "%s, applied to the items of a %s list, does not answer %s: %s" % (short, "test" if positive else "negated test", what, "; ".join(sorted(set(bad))[:4])), where)
+        elif unknown:
+            rep.undecided(rid, key, "%s does not fold to a boolean on every cell: %s" % (short, "; ".join(unknown[:2])))
+        else:
+            rep.ok(rid, key, "%d folds, every one answers %s" % (cells, what))
+    rep.floor(rid, "functions over test lists (positive, negated)", n, 2)
